@@ -143,14 +143,16 @@ def shard(kind: str, wl_idx: int, pol: tuple, ks: list[int] | None, stride_n: in
         # overwrite an earlier request; signal handlers are installed there as well)
         first = getattr(ref, "started_step", None) or 1
         if ks is None:
-            if stride_n <= 0 or stride_n >= T:
+            if stride_n <= 0 or stride_n >= T or (kind == "sqlite" and T <= 320 and wl_idx == 0):
+                # (the SQLite run of the first workload is short at statement granularity: every step, also in the quick tier)
                 ks = list(range(first, T + 1))
             else:
                 ks = {first + int(round(i * (T - first) / stride_n)) for i in range(stride_n + 1)}
                 # plus the neighbourhood of every status change of the reference run: windows open and close there
                 for t in ref.mon.transitions:
                     if t.get("step") is not None:
-                        for d in (0, 9):
+                        # a claim (PENDING) opens the start-up window of a worker thread: sample it densely
+                        for d in ((0, 9) if t["status"] != "PENDING" else range(0, 26, 2)):
                             if first <= t["step"] + d <= T:
                                 ks.add(t["step"] + d)
                 ks = sorted(ks)
@@ -184,6 +186,10 @@ def run(ctx: Ctx) -> None:
     for kind in ("mem", "sqlite"):
         for i in range(len(WORKLOADS)):
             jobs.append((kind, i, ("rr", 3), None, 10 if ctx.quick else 0, known))
+            if ctx.quick and kind == "sqlite" and i == 0:
+                # a seeded random schedule as well: round-robin alone never starves a thread during its start-up
+                for ds in (0, 1, 2):
+                    jobs.append((kind, i, ("rand", ctx.seed + ds), None, 0, known))
             if not ctx.quick:
                 jobs.append((kind, i, ("rand", ctx.seed), None, 300, known))
                 jobs.append((kind, i, ("rand", ctx.seed + 1), None, 300, known))
@@ -191,7 +197,7 @@ def run(ctx: Ctx) -> None:
     ctx.parts["stops"].exhaustive = not ctx.quick and None
     ctx.assumptions.append("the stop request is stop_runner_loop() issued exactly when the scheduler reaches step k (signal delivery is modelled as the same call)")
     ctx.assumptions.append("'the stop completes' is decided in bounded form: a scheduler-level proof of no progress is a violation, a step-budget hit is inconclusive")
-    ctx.assumptions.append("quick tier enumerates an even stride of ~25 stop steps per workload; thorough enumerates every step of the round-robin reference run")
+    ctx.assumptions.append("quick tier: every step of the SQLite run of the first workload under round-robin and three seeded random schedules; otherwise an even stride plus the neighbourhood of every status change (dense after a claim); thorough enumerates every step of the round-robin reference run")
 
 
 def replay(case: dict) -> int:
